@@ -828,17 +828,21 @@ def plan_c12(P):
 
         def body(bops, depth, a=a, nb=nb):
             base = r.choice([1e-3, 1e-2, 0.1, 1.0, 10.0, 100.0, 1e3])
+            prev_desc = None
             for i in range(nb):
                 op = P.forward(bops, a, fresh=True, fault=faults, inside_block=True)
                 if "fault" in op:
                     op["catch"] = r.random() < 0.8
                 desc = op["input"]
                 desc.pop("q", None)
+                if i > 0 and prev_desc is not None and prev_desc["lead"] == desc["lead"] and r.random() < 0.25:
+                    op["refill_of"] = copy.deepcopy(prev_desc)  # the same buffer, refilled with the next batch
                 if r.random() < 0.35 and a.activations:
                     desc["cls"] = "peak"
                     desc["mag"] = qmax[a.activations] * 2.0 ** r.choice([0, 0, 1, -1, -3, 2])
                 else:
                     desc["mag"] = base * r.choice([1.0, 2.0, 4.0, 0.5, 0.25, 3.0])
+                prev_desc = copy.deepcopy(desc) if "fault" not in op else None
                 if twin is not None and a in (deps[0], twin) and twin in deps and "fault" not in op and r.random() < 0.5:
                     # the same batch object goes through the sibling model as well
                     b = twin if a is deps[0] else deps[0]
